@@ -45,6 +45,7 @@ type Item struct {
 	MaxViol     int               `json:"max_viol"`
 	TimeLimitS  int               `json:"time_limit_s"`
 	OnlyPrefix  string            `json:"only_prefix"`
+	NoHang      bool              `json:"no_hang"`
 }
 
 var pkgClause = regexp.MustCompile(`(?m)^package\s+\w+`)
@@ -206,6 +207,7 @@ func (e *Engine) runItem(base *State, it Item) (res *ItemResult) {
 	e.symMapOrder = it.MapOrder
 	e.noPanic = it.NoPanic
 	e.onlyPrefix = it.OnlyPrefix
+	e.noHang = it.NoHang
 	e.knownOpen = map[string]bool{}
 	for _, k := range it.KnownOpen {
 		e.knownOpen[k] = true
@@ -287,14 +289,14 @@ func (e *Engine) installRedirects() {
 
 // redirectTable maps the suffix of a model function's name to the real function it replaces.
 var redirectTable = map[string]string{
-	"os_Lstat": "os.Lstat", "os_Stat": "os.Stat", "os_Readlink": "os.Readlink", "os_Open": "os.Open", "os_Create": "os.Create",
+	"os_OpenFile": "os.OpenFile", "os_Lstat": "os.Lstat", "os_Stat": "os.Stat", "os_Readlink": "os.Readlink", "os_Open": "os.Open", "os_Create": "os.Create",
 	"os_MkdirAll": "os.MkdirAll", "os_Mkdir": "os.Mkdir", "os_Symlink": "os.Symlink", "os_Chmod": "os.Chmod", "os_Chtimes": "os.Chtimes",
 	"os_Rename": "os.Rename", "os_RemoveAll": "os.RemoveAll", "os_Remove": "os.Remove", "os_ReadFile": "os.ReadFile", "os_WriteFile": "os.WriteFile",
 	"os_MkdirTemp": "os.MkdirTemp", "ioutil_TempDir": "io/ioutil.TempDir", "os_Getwd": "os.Getwd", "os_DirFS": "os.DirFS",
 	"os_IsNotExist": "os.IsNotExist", "os_IsPermission": "os.IsPermission", "os_IsExist": "os.IsExist",
 	"os_File_Close": "(*os.File).Close", "os_File_Readdirnames": "(*os.File).Readdirnames", "os_File_Read": "(*os.File).Read",
 	"os_File_Stat": "(*os.File).Stat", "os_File_Write": "(*os.File).Write",
-	"gzip_NewWriterLevel": "compress/gzip.NewWriterLevel", "gzip_NewReader": "compress/gzip.NewReader", "gzip_Writer_Close": "(*compress/gzip.Writer).Close",
+	"gzip_NewWriterLevel": "compress/gzip.NewWriterLevel", "gzip_NewReader": "compress/gzip.NewReader", "gzip_Writer_Close": "(*compress/gzip.Writer).Close", "gzip_Writer_Flush": "(*compress/gzip.Writer).Flush", "tar_Writer_Flush": "(*archive/tar.Writer).Flush",
 	"tar_NewWriter": "archive/tar.NewWriter", "tar_NewReader": "archive/tar.NewReader", "tar_Writer_WriteHeader": "(*archive/tar.Writer).WriteHeader",
 	"tar_Writer_Close": "(*archive/tar.Writer).Close", "tar_Reader_Next": "(*archive/tar.Reader).Next", "io_Copy": "io.Copy",
 	"tar_Header_FileInfo": "(*archive/tar.Header).FileInfo",
@@ -308,7 +310,7 @@ var redirectTable = map[string]string{
 	"svchost_Hostname_ForDisplay": "(github.com/hashicorp/terraform-svchost.Hostname).ForDisplay",
 	"versions_ParseVersion": "github.com/apparentlymart/go-versions/versions.ParseVersion",
 	"lchtimes": "(github.com/hashicorp/go-slug/internal/unpackinfo.UnpackInfo).Lchtimes",
-	"time_Now": "time.Now",
+	"time_Now": "time.Now", "sync_Map_Load": "(*sync.Map).Load", "sync_Map_Store": "(*sync.Map).Store", "sync_Map_LoadOrStore": "(*sync.Map).LoadOrStore", "sync_Map_Delete": "(*sync.Map).Delete", "sync_Map_LoadAndDelete": "(*sync.Map).LoadAndDelete", "sync_Map_Range": "(*sync.Map).Range", "sync_Once_Do": "(*sync.Once).Do",
 	"bufio_NewScanner": "bufio.NewScanner", "bufio_Scanner_Scan": "(*bufio.Scanner).Scan", "bufio_Scanner_Text": "(*bufio.Scanner).Text", "bufio_Scanner_Err": "(*bufio.Scanner).Err",
 }
 
